@@ -28,6 +28,7 @@ impl<'a> UserModel<'a> {
         row_end: i32,
         col_start: i32,
         col_end: i32,
+        diff_list: &mut Vec<Diff>,
     ) -> Result<HashMap<(i32, i32), Option<crate::types::Cell>>, String> {
         // First pass: validate all affected CSE anchors without mutating the worksheet.
         // An error here leaves the sheet untouched.
@@ -66,12 +67,27 @@ impl<'a> UserModel<'a> {
         // Second pass: all anchors are completely covered — safe to save and clear.
         let mut saved: HashMap<(i32, i32), Option<crate::types::Cell>> = HashMap::new();
         for (ar, ac, w, h) in anchors {
+            let mut old_value = Vec::new();
             for r in ar..ar + h {
+                let mut old_row = Vec::new();
                 for c in ac..ac + w {
                     let cell = self.model.workbook.worksheet(sheet)?.cell(r, c).cloned();
+                    old_row.push(cell.clone());
                     saved.insert((r, c), cell);
                 }
+                old_value.push(old_row);
             }
+            // Dissolving the array is a step of the fill: recorded, so that replaying the
+            // diffs (redo, or another model applying them) clears the block before its
+            // cells are written one by one
+            diff_list.push(Diff::RangeClearContents {
+                sheet,
+                row: ar,
+                column: ac,
+                width: w,
+                height: h,
+                old_value,
+            });
             let ws = self.model.workbook.worksheet_mut(sheet)?;
             for r in ar..ar + h {
                 for c in ac..ac + w {
@@ -150,6 +166,7 @@ impl<'a> UserModel<'a> {
             fill_row_end,
             column1,
             last_column,
+            &mut diff_list,
         )?;
 
         for column in column1..=last_column {
@@ -296,6 +313,7 @@ impl<'a> UserModel<'a> {
             last_row,
             fill_col_start,
             fill_col_end,
+            &mut diff_list,
         )?;
 
         for row in row1..=last_row {
